@@ -100,6 +100,25 @@ def run_dsop(w, s):
             real = lambda: getattr(ds, prop)[{dim: idx}]
         for k in keys:
             per_var[k] = (lambda a, k=k: a.take({dim: idx}, indexing="position" if position else "label") if has(k) else a)
+    elif what == "reduce" and s.get("direct"):
+        # Dataset.reduce_axis called directly with a NumPy function: what Dataset.mean/sum/... are built on
+        fn, keepattrs = s["fn"], bool(s.get("keepattrs"))
+        npf = getattr(np, fn)
+        real = lambda: ds.reduce_axis(npf, axis=axis, keepattrs=keepattrs)
+
+        def one(a, k):
+            if not has(k):
+                return a
+            r = getattr(a, fn)(axis=dim, skipna=False)
+            if not isinstance(r, da.DimArray):
+                # a 1-d variable reduces to a bare scalar, which cannot carry metadata: nothing to compare there
+                r = da.DimArray(r)
+                r.attrs.update(_copy.deepcopy(dict(a.attrs)))
+            if not keepattrs:
+                r.attrs = {}
+            return r
+        for k in keys:
+            per_var[k] = (lambda a, k=k: one(a, k))
     elif what == "reduce":
         fn, skipna = s["fn"], s["skipna"]
         if "axis" in s and s["axis"] is None:
@@ -153,9 +172,14 @@ def run_dsop(w, s):
         for k in keys:
             per_var[k] = (lambda a: f(a, val))
     elif what == "neg":
-        real = lambda: -ds
-        for k in keys:
-            per_var[k] = (lambda a: -a)
+        if s.get("sign") == "pos":
+            real = lambda: +ds
+            for k in keys:
+                per_var[k] = (lambda a: +a)
+        else:
+            real = lambda: -ds
+            for k in keys:
+                per_var[k] = (lambda a: -a)
     elif what == "ds_op_ds":
         f = getattr(operator, s["fn"])
         if m.unused:
